@@ -635,6 +635,10 @@ func c07(w *core.World, r *core.Report) {
 	ruleSyncMetaPaths(w, r)
 	r.Rule("R07.8", "every flush stores the one running position (the end offset of the last item taken, pings included) or the received item's own offset", 2)
 	ruleFlushOffsetsFollowEveryItem(w, r, c)
+	r.Rule("R07.9", "the database a checkpoint is accounted to is the database of the last command queued in the same batch: the per-database set that lets an offset go without its run id is asked and told about nothing else (a database remembered from an earlier batch is 0 after a keep-alive; seed C07-13)", 1)
+	if c != nil {
+		ruleCheckpointDbFromBatch(w, r, c)
+	}
 }
 
 func isIfaceCall(v ssa.Value, suffix string) bool {
